@@ -11,6 +11,11 @@ and keyword arguments, in sync and async ImmutableSandboxedEnvironments with
 autoescape off and on (filters take different code paths on escaped data), on
 inputs whose items are ints, floats, None, booleans, nested lists and dicts, and
 also applied to the inner containers of an input through map('<filter>', ...).
+Generated {% set %} statements with attribute targets complete the workload:
+tuples of attribute targets mixing namespace objects with context containers
+(all orders, same / different attribute names, aliases and loop variables) and
+namespaces built from context data (namespace(d), namespace(pairs),
+namespace(**d), ...) that are assigned to afterwards.
 After each render every context value is compared with the deep copy taken
 before it; the comparison is type-exact at every level (1 != '1' != True).
 """
@@ -29,7 +34,12 @@ RULE = ("method cases: (container type, target expression, name from dir(type), 
         "argument named after each parameter of the filter's signature with container/scalar "
         "values, consumption form [print, list, loop, via-map = the filter applied to every "
         "element of the input through map('<filter>', args)], sync/async, autoescape off/on), "
-        "enumerated completely (quick: a seed-rotated "
+        "enumerated completely; set-statement cases: every ordered pair (and 8 triples) of "
+        "attribute targets over {2 namespaces, context dicts/list/object, set/with alias of a "
+        "context dict, loop variables over dicts and lists} x attribute-name patterns (all same, "
+        "partly same, different, existing keys), and 11 ways to build a namespace from context "
+        "data x 8 follow-up attribute assignments (plain, tuple, block set, inside macro, inside "
+        "loop) (quick: a seed-rotated "
         "quarter of the non-mutating argument tuples and one direct consumption form per row, "
         "via-map on inputs whose elements are containers; method cases alternate autoescape by "
         "row, direct filter cases run sync under both autoescape settings and async under one "
@@ -46,6 +56,7 @@ ASSUMPTIONS = [
     "containers are of the exact builtin types list, dict, set, collections.deque; subclasses are not generated",
     "equality is element-wise == with exact type at every level (so 1, '1', 1.0 and True are all different; deque maxlen included) between the rendered-with data and a second, identical build of the data; once per shard that build is checked to equal copy.deepcopy of the first (plus attribute dicts of plain holder objects)",
     "a (method, arguments) pair counts as an attempted modification iff executing it on a deep copy changes the copy",
+    "set statements with attribute targets: only the before/after comparison of the context data is judged (the documentation promises an exception for non-namespace targets; which one is not checked here); a namespace built from context data is a new object, so assigning its attributes must leave that data as it was",
     "autoescape is an environment option (autoescape=True/False); per-template autoescape blocks are not generated",
 ]
 NSHARDS = {"quick": 16, "thorough": 16}
@@ -57,14 +68,16 @@ FLOORS = {
                            "async_renders": 5000, "comparisons": 11000,
                            "method_names": 150, "filters_covered": 40,
                            "defined_checks": 300, "autoescape_renders": 4500,
-                           "filter_cases_autoescape": 3500, "via_map_cases": 900}},
+                           "filter_cases_autoescape": 3500, "via_map_cases": 900,
+                           "assign_cases:tuple": 320, "assign_cases:nsinit": 66}},
     "thorough": {"evaluations": 60000, "distinct": 60000,
                  "counters": {"method_cases": 30000, "mutating_attempts": 8000,
                               "security_errors": 6000, "filter_cases": 30000,
                               "async_renders": 30000, "comparisons": 60000,
                               "method_names": 150, "filters_covered": 40,
                               "defined_checks": 300, "autoescape_renders": 60000,
-                              "filter_cases_autoescape": 40000, "via_map_cases": 20000}},
+                              "filter_cases_autoescape": 40000, "via_map_cases": 20000,
+                              "assign_cases:tuple": 420, "assign_cases:nsinit": 88}},
 }
 
 TYPES = {"list": list, "dict": dict, "set": set, "deque": collections.deque}
@@ -456,6 +469,95 @@ STATEMENTS = [
 ]
 
 
+# ------------------------------------------------ generated {% set %} targets
+# Attribute assignment ({% set x.attr = ... %}) is documented for namespace
+# objects only; applied to anything else it must not store into it.  Generated
+# here: tuples of attribute targets mixing real namespaces with containers
+# from the context (every order, same and different attribute names, direct
+# names, set/with aliases and loop variables), and namespaces initialised from
+# context data (namespace(d), namespace(pairs), namespace(**d), ...) that are
+# assigned to afterwards: the namespace is a fresh object, the data it was
+# built from stays as it was.
+ASSIGN_REFS = {
+    # name: (wrapper with BODY, reference name, kind)
+    "ns": ("BODY", "ns", "namespace"),
+    "ns2": ("BODY", "ns2", "namespace"),
+    "d": ("BODY", "d", "context-dict"),
+    "adict": ("BODY", "adict", "context-dict"),
+    "l": ("BODY", "l", "context-list"),
+    "o": ("BODY", "o", "context-object"),
+    "set_alias": ("{% set m = d %}BODY", "m", "alias-of-context-dict"),
+    "with_alias": ("{% with w = adict %}BODY{% endwith %}", "w", "alias-of-context-dict"),
+    "loop_var": ("{% for row in [adict, d.c, nest.t[1]] %}BODY{% endfor %}", "row",
+                 "loop-variable-dict"),
+    "loop_var_list": ("{% for lrow in ll %}BODY{% endfor %}", "lrow", "loop-variable-list"),
+}
+ASSIGN_NS_PRELUDE = "{% set ns = namespace() %}{% set ns2 = namespace(a=0, k=0) %}"
+ASSIGN_ATTRS2 = [("k", "k"), ("a", "a"), ("j", "k"), ("a", "z")]
+ASSIGN_TRIPLES = [("ns", "d", "adict"), ("ns", "ns2", "d"), ("d", "ns", "adict"),
+                  ("ns", "d", "ns2"), ("ns", "loop_var", "d"), ("ns2", "set_alias", "with_alias"),
+                  ("ns", "l", "d"), ("loop_var", "ns", "loop_var")]
+ASSIGN_ATTRS3 = [("k", "k", "k"), ("k", "k", "j"), ("j", "k", "k"), ("k", "j", "k"),
+                 ("a", "z", "k")]
+NS_SOURCES = {
+    # name: (wrapper with BODY, namespace constructor expression)
+    "dict": ("BODY", "namespace(d)"),
+    "arg-dict": ("BODY", "namespace(adict)"),
+    "nested-dict": ("BODY", "namespace(d.c)"),
+    "dict-in-tuple": ("BODY", "namespace(nest.t[1])"),
+    "pairs": ("BODY", "namespace(pairs)"),
+    "double-star": ("BODY", "namespace(**adict)"),
+    "dict-plus-keyword": ("BODY", "namespace(adict, q=1)"),
+    "set-alias": ("{% set src = adict %}BODY", "namespace(src)"),
+    "loop-var": ("{% for row in [adict, d.c] %}BODY{% endfor %}", "namespace(row)"),
+    "macro-param": ("{% macro mk(x) %}BODY{% endmacro %}{{ mk(adict) }}{{ mk(d) }}", "namespace(x)"),
+    "keyword-holding-container": ("BODY", "namespace(v=alist, w=adict)"),
+}
+NS_FOLLOWUPS = [
+    "{% set ns.x = 1 %}{{ ns.x }}",
+    "{% set ns.a = 5 %}{{ ns.a }}",
+    "{% set ns.z = [] %}",
+    "{% set ns.a, ns.x = 1, 2 %}",
+    "{% set ns.k %}text{% endset %}",
+    "{% macro bump() %}{% set ns.a = 7 %}{% endmacro %}{{ bump() }}{{ bump() }}",
+    "{% for i in [1, 2] %}{% set ns.a = i %}{% set ns.z = i %}{% endfor %}{{ ns.a }}",
+    "{% set other = namespace() %}{% set other.a, ns.a = 1, 2 %}",
+]
+
+
+def assignment_statements():
+    """-> [(mechanism key, source, group)]"""
+    out = []
+
+    def build(refs, attrs):
+        body = "{% set " + ", ".join(f"{ASSIGN_REFS[r][1]}.{a}" for r, a in zip(refs, attrs)) + \
+               " = " + ", ".join(str(i + 1) for i in range(len(refs))) + " %}"
+        src = body
+        for r in dict.fromkeys(refs):
+            src = ASSIGN_REFS[r][0].replace("BODY", src)
+        kinds = ",".join(ASSIGN_REFS[r][2] for r in refs)
+        same = "same-attr" if len(set(attrs)) < len(attrs) else "different-attrs"
+        return (f"set-attribute-tuple:{kinds}:{same}", ASSIGN_NS_PRELUDE + src, "tuple")
+
+    names = list(ASSIGN_REFS)
+    for r1 in names:
+        for r2 in names:
+            if r1 == r2 and ASSIGN_REFS[r1][2] == "namespace":
+                continue
+            if ASSIGN_REFS[r1][2] == "namespace" and ASSIGN_REFS[r2][2] == "namespace":
+                continue
+            for attrs in ASSIGN_ATTRS2:
+                out.append(build((r1, r2), attrs))
+    for refs in ASSIGN_TRIPLES:
+        for attrs in ASSIGN_ATTRS3:
+            out.append(build(refs, attrs))
+    for sname, (wrap, ctor) in NS_SOURCES.items():
+        for fu in NS_FOLLOWUPS:
+            out.append((f"namespace-init-from-context:{sname}",
+                        wrap.replace("BODY", "{% set ns = " + ctor + " %}" + fu), "nsinit"))
+    return out
+
+
 def statement_case(ctx, case, count=True):
     source, is_async = case["source"], case["async"]
     autoescape = bool(case.get("autoescape", False))
@@ -467,6 +569,9 @@ def statement_case(ctx, case, count=True):
     if count:
         ctx.ev()
         ctx.count("statement_cases")
+        if case.get("group"):
+            ctx.count("assign_cases:" + case["group"])
+            ctx.count("assign_outcome:" + case["group"] + ":" + outcome)
         ctx.count("comparisons")
         if is_async:
             ctx.count("async_renders")
@@ -543,6 +648,15 @@ def run(ctx):
             for is_async in (False, True):
                 for ae in (False, True):
                     statement_case(ctx, {"kind": "statement", "key": key, "source": s,
+                                         "async": is_async, "autoescape": ae})
+    # ---- generated {% set %} attribute targets / namespaces built from context data
+    for i, (key, s, group) in enumerate(assignment_statements()):
+        if ctx.mine(i):
+            for is_async in (False, True):
+                for ae in (False, True):
+                    if quick and is_async and ae != ((i // ctx.nshards + ctx.seed) % 2 == 0):
+                        continue
+                    statement_case(ctx, {"kind": "statement", "key": key, "source": s, "group": group,
                                          "async": is_async, "autoescape": ae})
     # ---- complete filter table
     table = filter_table(quick)
